@@ -223,7 +223,7 @@ func TestVerif_C15(t *testing.T) {
 		case "unknown":
 			unknown.Add(1)
 		}
-		if i < 2 {
+		if rep.WantSample() {
 			rep.Sample(map[string]any{"capacity": capacity, "clients": nclients, "history": vk.DescribeHistory(ops)[:min(10, len(ops))]})
 		}
 	})
